@@ -83,6 +83,21 @@ func (ix *posIndex) at(line, col int) []doctree.Path {
 	return out
 }
 
+// atLine returns the nodes whose value or member name starts on that line.
+func (ix *posIndex) atLine(line int) []doctree.Path {
+	var out []doctree.Path
+	doctree.WalkPaths(ix.tree, func(p doctree.Path, v *jsonv.Value, parent *jsonv.Value) {
+		sp := ix.spans[v]
+		if sp == nil {
+			return
+		}
+		if sp.Line == line || (sp.KeyLine == line && sp.KeyLine > 0) {
+			out = append(out, append(doctree.Path{}, p...))
+		}
+	})
+	return out
+}
+
 func isPrefix(a, b doctree.Path) bool {
 	if len(a) > len(b) {
 		return false
@@ -104,6 +119,30 @@ var independentMembers = map[string]bool{"": true, "paths": true, "webhooks": tr
 // related decides whether a reported node q is acceptable for mutant m.
 func related(tree *jsonv.Value, q doctree.Path, m *mutate.Mutant) (bool, string) {
 	f := m.Focus
+	if m.Kind == "duplicate-key" && len(q) > 0 {
+		// a repeated key is reported at one of the two entries (same path) or inside its value; a position at the
+		// enclosing mapping does not say which key is meant. (A report without position, or at the root, is the
+		// YAML decoder's own and judged by the general rule below.)
+		if isPrefix(f, q) {
+			return true, "self-or-descendant"
+		}
+		if len(q) == len(f) && isPrefix(f[:len(f)-1], q) && q[len(q)-1] != f[len(f)-1] {
+			return false, "another-member-instead-of-the-duplicate-key"
+		}
+		if isPrefix(q, f) && len(q) < len(f) {
+			in := "root"
+			if len(f) >= 2 {
+				in = f[len(f)-2]
+			}
+			for _, e := range f[:len(f)-1] {
+				if strings.HasPrefix(e, "x-") {
+					in = "extension-" + e // anywhere below an extension value
+					break
+				}
+			}
+			return false, "enclosing-mapping-instead-of-the-duplicate-key/in-" + in
+		}
+	}
 	if m.Strict {
 		// key-level faults of a path template: the diagnostic belongs to that key (or its value)
 		if isPrefix(f, q) {
@@ -558,6 +597,28 @@ func Main(args []string) int {
 						save()
 						r.Violate("position-outside-document", fmt.Sprintf("%s: reported %d:%d but that line has %d bytes", c.id, p.Line, p.Col, c.ix.lineLens[p.Line-1]), w)
 					}
+					// a line without column (the YAML decoder's own diagnostics): judged at line granularity - some node
+					// that starts on that line must be related to the fault
+					if p.Kind == "line-only" && c.mut != nil && c.class != "bytes" && c.ix.hasNodes && !baselineFails[c.doc] {
+						if cands := c.ix.atLine(p.Line); len(cands) > 0 {
+							okRel, why := false, ""
+							for _, q := range cands {
+								if ok, y := related(treeOf(c), q, c.mut); ok {
+									okRel = true
+									break
+								} else {
+									why = y
+								}
+							}
+							r.Count("line_only_positions_judged", 1)
+							if !okRel {
+								w["position"] = p
+								w["nodes_on_that_line"] = fmt.Sprint(cands)
+								save()
+								r.Violate("line-unrelated:"+c.mut.Kind+":"+why, fmt.Sprintf("%s: fault at %s, reported line %d where %v start (%s): %s", c.id, c.mut.Focus, p.Line, cands, why, firstLine(l.Err)), w)
+							}
+						}
+					}
 					continue
 				}
 				nodes := c.ix.at(p.Line, p.Col)
@@ -924,6 +985,14 @@ func mustPlan(tree *jsonv.Value) []mutate.Spec {
 			seenKind["cycle"]++
 			out = append(out, mutate.Spec{Path: pp, Kind: "allof-cycle-inline"}, mutate.Spec{Path: pp, Kind: "allof-cycle-direct"}, mutate.Spec{Path: pp, Kind: "self-ref"})
 		}
+		if len(p) >= 2 && p[len(p)-2] == "responses" && seenKind["respcode"] < 2 {
+			seenKind["respcode"]++
+			for _, k := range mutate.Kinds {
+				if strings.HasPrefix(k, "response-code:") {
+					out = append(out, mutate.Spec{Path: pp, Kind: k})
+				}
+			}
+		}
 		if len(p) == 2 && p[0] == "paths" && seenKind["pathkey"] < 4 {
 			seenKind["pathkey"]++
 			out = append(out, mutate.Spec{Path: pp, Kind: "path-template-error"}, mutate.Spec{Path: pp, Kind: "break-escape"})
@@ -940,7 +1009,7 @@ func mustPlan(tree *jsonv.Value) []mutate.Spec {
 		if len(p) >= 2 && containers[p[len(p)-2]] && seenKind["null:"+p[len(p)-2]+"|"+ctx] < 2 && seenKind["null:"+p[len(p)-2]] < 8 {
 			seenKind["null:"+p[len(p)-2]+"|"+ctx]++
 			seenKind["null:"+p[len(p)-2]]++
-			out = append(out, mutate.Spec{Path: pp, Kind: "null"}, mutate.Spec{Path: pp, Kind: "empty-map"})
+			out = append(out, mutate.Spec{Path: pp, Kind: "null"}, mutate.Spec{Path: pp, Kind: "empty-map"}, mutate.Spec{Path: pp, Kind: "duplicate-key"})
 		}
 	})
 	return out
